@@ -100,6 +100,9 @@ theorem plainPart_ro (o : Opts) (c : Bool) (attrName : String) (valueN attrValue
   · split <;> simp
   · simp
 
+@[simp] theorem memberRootCheck_ro (m : Node) (st : St) : (memberRootCheck m st).ro = st.ro := by
+  rcases memberRootCheck_cases m st with h | h <;> rw [h] <;> rfl
+
 @[simp] theorem transformTag_ro (env : Env) (n : Node) (st : St) : (transformTag env n st).2.ro = st.ro := by
   unfold transformTag
   split
@@ -110,7 +113,7 @@ theorem plainPart_ro (o : Opts) (c : Bool) (attrName : String) (valueN attrValue
       · split
         · rfl
         · split <;> simp
-  · rfl
+  · simp
   · rfl
   · rfl
 
